@@ -546,7 +546,11 @@ def main():
                 distinct.add(op)
         elif vd.startswith("known:"):
             cls = vd[6:]
-            if cls in known_classes:
+            if ag == "DISAGREE":
+                # a listed finding is recognised only in the exact form the model (= the unchanged code) exhibits it
+                stats["bad"] += 1
+                bad.append((op, ia, ma, vd + " (but the implementation deviates from the recorded behaviour)"))
+            elif cls in known_classes:
                 stats["known"] += 1
                 known_hits.setdefault(cls, op)
                 distinct.add(op)
